@@ -99,6 +99,7 @@ static ssize_t scripted_writev(const struct iovec* iov, int iovcnt) {
   for (i = 0; i < iovcnt; i++) offered += iov[i].iov_len;
   if (iovcnt > 1024) {               /* what the kernel says to more than IOV_MAX entries */
     fprintf(olog, "e%d ", EINVAL);
+    if (!g_quiet) printf("!iov%d ", iovcnt);
     errno = EINVAL;
     return -1;
   }
@@ -338,14 +339,22 @@ static void run_case(char* line) {
   for (i = 0; i < nreq; i++) { free(reqs[i]->payload); free(reqs[i]); reqs[i] = NULL; }
 }
 
+static void on_alarm(int sig) {
+  (void) sig;
+  printf(" HANG\n");
+  fflush(stdout);
+  _exit(3);
+}
+
 int main(int argc, char** argv) {
   char* line = NULL; size_t cap = 0;
   tcp_mode = argc > 1 && strcmp(argv[1], "tcp") == 0;
   signal(SIGPIPE, SIG_IGN);
+  signal(SIGALRM, on_alarm);
   while (getline(&line, &cap, stdin) > 0) {
     size_t n = strlen(line);
     if (n && line[n - 1] == '\n') line[n - 1] = 0;
-    alarm(30);
+    alarm(4);
     run_case(line);
     fflush(stdout);
   }
